@@ -75,7 +75,9 @@ Print Assumptions scrub_read_error_safe.
 (* ---- parity write errors ----
    Full strength (FaultProofs.write_error_safe_stmt): whenever some pwrite of the run fails the exit status is failing,
    and no stripe ends recorded synced-and-healthy over a parity block that is not a generator output.  FALSE on the
-   pinned tree (F-C08), in three distinct ways; the check replays the three witnesses on the binary. *)
+   pinned tree (F-C08): recorded synced (threaded and single-thread), errors of the last queued stripes lost (threaded);
+   the third way (single-thread errors never reported) was repaired in /repo 55c30f5 and is now a theorem
+   (write_error_exit_mono).  The check replays the witnesses on the binary. *)
 Theorem write_error_safe_refuted : ~ write_error_safe_stmt.
 Proof. exact write_error_safe_refuted. Qed.
 Print Assumptions write_error_safe_refuted.
@@ -94,12 +96,22 @@ Theorem write_error_refuted_threaded_last :
 Proof. exact write_error_refuted_threaded_last. Qed.
 Print Assumptions write_error_refuted_threaded_last.
 
-Theorem write_error_refuted_mono :
+(* single-thread mode: since the repair 55c30f5 of F-C08-mono-writer-errors-lost the exit status is failing whenever a
+   parity write failed (proved below); the stripe is still recorded synced over the old block (same defect as in
+   threaded mode, key F-C08-parity-write-error-recorded-synced) *)
+Theorem write_error_refuted_mono_recorded_synced :
   let r := wrun Mono 3 in
-  w_nfail r = 1 /\ run_failing (w_run r) = false /\ length (w_lost r) = 1 /\
+  w_nfail r = 1 /\ run_failing (w_run r) = true /\ length (w_lost r) = 0 /\
   recorded_healthy (ro_content (w_run r)) 3 = true /\ nth 3 (nth 0 (ro_parity (w_run r)) []) PNone = PJunk 4.
-Proof. exact write_error_refuted_mono. Qed.
-Print Assumptions write_error_refuted_mono.
+Proof. exact write_error_refuted_mono_recorded_synced. Qed.
+Print Assumptions write_error_refuted_mono_recorded_synced.
+
+Theorem write_error_exit_mono :
+  forall hashf bs nlev o now fs faults wf lag stripes stop c par,
+    let r := sync_loop_w hashf bs nlev o now fs faults wf Mono lag stripes stop 0 [] 0 c par 0 0 0 in
+    0 < w_nfail r -> run_failing (w_run r) = true.
+Proof. exact write_error_exit_mono. Qed.
+Print Assumptions write_error_exit_mono.
 
 (* what does hold: the exit status is failing as soon as ONE failed write's report is not among those the loop never
    collected (w_lost).  Extra hypothesis w.r.t. the full statement: `length (w_lost r) < w_nfail r`. *)
